@@ -95,6 +95,26 @@ def run(ctx: Ctx) -> None:
                         seen.add(key)
                         items.append((sp, ch, (step, vic, ek), 'c14', 0,
                                       'deviation', None))
+        # Order of execution (the set is what it is): scenarios round robin,
+        # and inside a scenario the crash points in a low-discrepancy order
+        # (index * golden ratio mod 1), so that whenever a time cap cuts the
+        # run short, every scenario and every stretch of its schedule has
+        # had crash points executed -- not only the first steps of the first
+        # scenarios.
+        per: dict = collections.OrderedDict((s_['name'], []) for s_ in specs)
+        for it_ in items:
+            per[it_[0]['name']].append(it_)
+        items = []
+        qs = []
+        for lst in per.values():
+            lst.sort(key=lambda x: (x[2][0], repr(x[1]), x[2][1], x[2][2]))
+            order = sorted(range(len(lst)),
+                           key=lambda i: (i * 0.6180339887498949) % 1.0)
+            qs.append(collections.deque(lst[i] for i in order))
+        while qs:
+            for q_ in qs:
+                items.append(q_.popleft())
+            qs = [q_ for q_ in qs if q_]
         n_done = 0
         fired = 0
         for r in pmap(explore.run_item, items, procs=ctx.procs,
